@@ -296,6 +296,18 @@ def _dataflow_checker():
                             add('dataflow_time_delta', 'propagation interval of step %d is not the difference of its grid times' % si)
                         if pvak is not mk('interp', nomrow(a), nomrow(nxt), 0.5):
                             add('dataflow_prop_pva', 'step %d: error dynamics evaluated at a state other than the nominal trajectory averaged over the step' % si)
+                        # averaged readings: sum of the increments stamped in (t_a, t_next] divided by the interval
+                        out['nobl'] += 1
+                        if h.with_increments:
+                            from ..sched import IncFrame, THETA, DV
+                            rows = h.inc_rows(ts[1:], ts[0])[a:nxt]
+                            fr = IncFrame(rows)
+                            want_g = _key(fr[list(THETA)].sum(axis=0) / td)
+                            want_a = _key(fr[list(DV)].sum(axis=0) / td)
+                            if gk is not want_g or ak is not want_a:
+                                add('dataflow_readings', 'step %d: averaged gyro/accel readings are not the sum of the increments of that step (stamps in (t, t_next]) divided by its length' % si)
+                        elif gk is not None or ak is not None:
+                            add('dataflow_readings', 'step %d: readings passed although no increments were given' % si)
                     a4 = (pvak, gk, ak, _key(td))
                     Phi, Qd = mk('Phi', *a4), mk('Qd', *a4)
                     x = mk('mm', Phi, x)
@@ -319,6 +331,8 @@ def _dataflow_checker():
 
 
 DATAFLOW_CANARIES = [
+    ('increment batch includes the sample at the step start', 'increments.loc[np.nextafter(time, next_time) : next_time]', 'increments.loc[time : next_time]',
+     dict(n_rows=4, sensors=[('Position', 1, 2)], with_increments=True, model_states=(1, 1))),
     ('covariance propagated with Phi^T P Phi', 'P = Phi @ P @ Phi.transpose() + Qd', 'P = Phi.transpose() @ P @ Phi + Qd'),
     ('state not propagated', 'x = Phi @ x', 'x = x'),
     ('measurement model evaluated on the nominal trajectory', 'pva = _interpolate_pva(trajectory.iloc[index], trajectory.iloc[index + 1],', 'pva = _interpolate_pva(trajectory_nominal.iloc[index], trajectory_nominal.iloc[index + 1],'),
@@ -406,7 +420,7 @@ def dataflow(run):
     cls = _dataflow_checker()
     P, V, BV = 'Position', 'NedVelocity', 'BodyVelocity'
     cfgs = [dict(label='dataflow 4rows P1 V1', n_rows=4, sensors=[(P, 1, 2), (V, 1, 2)], model_states=(3, 3)),
-            dict(label='dataflow 3rows P2 B1 2D +increments', n_rows=3, sensors=[(P, 2, 2), (BV, 1, 3)], with_altitude=False, with_increments=True, model_states=(2, 4))]
+            dict(label='dataflow 4rows P1 B1 2D +increments', n_rows=4, sensors=[(P, 1, 2), (BV, 1, 3)], with_altitude=False, with_increments=True, model_states=(2, 4))]
     if run.tier == 'thorough':
         cfgs.append(dict(label='dataflow 5rows P2 V1', n_rows=5, sensors=[(P, 2, 2), (V, 1, 2)], model_states=(3, 3)))
     sub = type(run)(PROP, run.level, run.tier, run.seed)
@@ -435,7 +449,10 @@ def replay(spec):
     import pandas as pd
     if spec.get('kind') in ('feedforward', 'feedback'):
         from ..filtercheck import replay_schedule
-        return replay_schedule(spec)
+        r = replay_schedule(spec)
+        if r.get('violated') or spec.get('kind') != 'feedforward':
+            return r
+        return _replay_dataflow(spec, r)
     from pyins import filters, error_model, inertial_sensor, kalman, transform
     from pyins.util import TRAJECTORY_COLS, TRAJECTORY_ERROR_COLS
     pr = spec.get('params') or {}
@@ -517,3 +534,82 @@ def replay(spec):
         if not np.allclose(gsd.values[0] ** 2, Pd[ni:ni + ng]) or not np.allclose(asd.values[0] ** 2, Pd[ni + ng:]):
             fails.append('sensor sd tables are not the square roots of their covariance blocks')
     return {'violated': bool(fails), 'detail': fails}
+
+
+def _replay_dataflow(spec, r):
+    """the dataflow claims on the real loop for one concrete schedule: recording wrappers around
+    _compute_error_propagation_matrices, _interpolate_pva and kalman.correct (module attributes of the
+    running interpreter, nothing in /repo is touched) and an independent recomputation of what each
+    step must be given"""
+    import numpy as np
+    import pandas as pd
+    from pyins import filters, measurements, inertial_sensor
+    from pyins.util import TRAJECTORY_COLS
+    stamps = np.array(spec['stamps'], dtype=float)
+    wa = spec['with_altitude']
+    n = len(stamps)
+    base = np.array([50.0, 30.0, 100.0, 1.0, -2.0, 0.0 if not wa else 0.5, 1.0, -2.0, 40.0])
+    rows = np.tile(base, (n, 1))
+    rows[:, 0] += 1e-6 * np.arange(n)
+    rows[:, 3] += 0.1 * np.arange(n)
+    nominal = pd.DataFrame(rows, index=pd.Index(stamps, name='time'), columns=TRAJECTORY_COLS)
+    computed = nominal.copy()
+    computed['lat'] += 2e-6
+    computed['VE'] += 0.05
+    dt = np.diff(stamps)
+    inc = pd.DataFrame({'dt': dt}, index=pd.Index(stamps[1:], name='time'))
+    rng = np.random.RandomState(3)
+    for c in ['theta_x', 'theta_y', 'theta_z']:
+        inc[c] = rng.randn(n - 1) * 1e-3
+    for c in ['dv_x', 'dv_y', 'dv_z']:
+        inc[c] = rng.randn(n - 1) * 1e-2
+    meas = []
+    for name, times in spec['sensors'].items():
+        times = np.array(times, dtype=float)
+        if name == 'Position':
+            meas.append(measurements.Position(pd.DataFrame({'lat': 50.0, 'lon': 30.0, 'alt': 100.0}, index=times), 5.0))
+        elif name == 'NedVelocity':
+            meas.append(measurements.NedVelocity(pd.DataFrame({'VN': 1.0, 'VE': -2.0, 'VD': 0.0}, index=times), 0.5))
+        else:
+            meas.append(measurements.BodyVelocity(pd.DataFrame({'VX': 1.0, 'VY': 0.0, 'VZ': 0.1}, index=times), 0.5))
+    if spec['meas_mode'] != 'list':
+        meas = []
+    gm = inertial_sensor.EstimationModel(bias_sd=1e-5, noise=1e-6, scale_misal_sd=1e-3)
+    am = inertial_sensor.EstimationModel(bias_sd=1e-2, noise=1e-3, scale_misal_sd=1e-3)
+    rec = []
+    orig = filters._compute_error_propagation_matrices
+
+    def wrap(pva, gyro, accel, time_delta, *a):
+        rec.append((pva.copy(), None if gyro is None else np.array(gyro, dtype=float), None if accel is None else np.array(accel, dtype=float), float(time_delta)))
+        return orig(pva, gyro, accel, time_delta, *a)
+    filters._compute_error_propagation_matrices = wrap
+    failed = []
+    try:
+        kw = {} if spec.get('default_step') else {'time_step': spec['step']}
+        res = filters.run_feedforward_filter(nominal, computed, 10.0, 1.0, 1.0, 1.0, gyro_model=gm, accel_model=am, measurements=meas,
+                                             increments=inc, with_altitude=wa, **kw)
+    except Exception as e:      # noqa: BLE001
+        failed.append('exception %s: %s' % (type(e).__name__, str(e)[:160]))
+        res = None
+    finally:
+        filters._compute_error_propagation_matrices = orig
+    if res is not None:
+        ri = list(res.trajectory.index)
+        pos = [int(np.nonzero(stamps == t)[0][0]) for t in ri]
+        for k, (pva, g, a, td) in enumerate(rec):
+            if k + 1 >= len(pos):
+                break
+            lo, hi = stamps[pos[k]], stamps[pos[k + 1]]
+            sel = inc[(inc.index > lo) & (inc.index <= hi)]
+            wg = sel[['theta_x', 'theta_y', 'theta_z']].sum(axis=0).values / (hi - lo)
+            wa_ = sel[['dv_x', 'dv_y', 'dv_z']].sum(axis=0).values / (hi - lo)
+            if abs(td - (hi - lo)) > 1e-12:
+                failed.append('step %d: propagation interval %.6g is not the difference of its grid times %.6g' % (k, td, hi - lo))
+            if g is None or not np.allclose(g, wg, rtol=1e-12, atol=1e-18) or not np.allclose(a, wa_, rtol=1e-12, atol=1e-18):
+                failed.append('step %d: averaged readings are not the sum of the increments stamped in (t, t_next] divided by the step length' % k)
+            want = 0.5 * (nominal.iloc[pos[k]][['lat', 'lon', 'alt', 'VN', 'VE', 'VD']].values + nominal.iloc[pos[k + 1]][['lat', 'lon', 'alt', 'VN', 'VE', 'VD']].values)
+            if not np.allclose(pva[['lat', 'lon', 'alt', 'VN', 'VE', 'VD']].values.astype(float), want, rtol=1e-12, atol=1e-12):
+                failed.append('step %d: error dynamics not evaluated at the nominal trajectory averaged over the step' % k)
+    r['failed'] = list(r.get('failed') or []) + failed[:4]
+    r['violated'] = bool(r['failed'])
+    return r
